@@ -231,7 +231,7 @@ def print_assumptions(module, names, workdir):
     """Return {theorem: [axioms]} using a scratch file; [] means 'Closed under the global context'."""
     os.makedirs(workdir, exist_ok=True)
     path = os.path.join(workdir, 'assumptions_%s.v' % module.replace('.', '_'))
-    lines = ['Require Import %s.' % module]
+    lines = ['Require Import %s.' % module, 'Set Printing Width 100000.']
     for n in names:
         lines.append('Goal True. idtac "@@BEGIN %s". exact I. Qed.' % n)
         lines.append('Print Assumptions %s.' % n)
@@ -249,10 +249,16 @@ def print_assumptions(module, names, workdir):
             res[name] = []
         else:
             axs = []
-            for line in body.split('\n'):
-                m = re.match(r'^([A-Za-z_][A-Za-z0-9_.\']*)\s*:', line)
-                if m and m.group(1) not in ('Axioms', 'Opaque', 'Transparent', 'Section'):
+            blines = body.split('\n')
+            for k, line in enumerate(blines):
+                # an axiom is printed as `Name : type`; a long type goes to the next line (`Name` alone, then `  : type`)
+                m = re.match(r'^([A-Za-z_][A-Za-z0-9_.\']*)\s*(:|$)', line)
+                if not m or m.group(1) in ('Axioms', 'Opaque', 'Transparent', 'Section'):
+                    continue
+                if m.group(2) == ':' or (k + 1 < len(blines) and re.match(r'^\s+:', blines[k + 1])):
                     axs.append(m.group(1))
+            if not axs and 'Axioms:' in body:
+                axs = ['<unparsed axiom list>']      # fail closed: never report "closed" when Coq printed axioms
             res[name] = axs
     for ext in ('.v', '.vo', '.vok', '.vos', '.glob'):
         with contextlib.suppress(FileNotFoundError):
